@@ -3,6 +3,7 @@ package engb
 import (
 	"encoding/json"
 	"fmt"
+	"sort"
 	"strings"
 	"testing/synctest"
 
@@ -152,6 +153,8 @@ func (r *run) rogue(e Ev) {
 		if base == nil {
 			return
 		}
+		// the client builds its packs while ranging over a Go map: pick by key, not by position
+		sort.SliceStable(base.PushPullPacks, func(i, j int) bool { return base.PushPullPacks[i].Key < base.PushPullPacks[j].Key })
 		p := base.PushPullPacks[g.Intn(len(base.PushPullPacks))]
 		if needOps {
 			for _, q := range base.PushPullPacks {
